@@ -1,6 +1,7 @@
 package verifsim
 
 import (
+	"bytes"
 	"context"
 	"errors"
 	"fmt"
@@ -322,7 +323,7 @@ func execC10(e *Env, pp any) {
 		e.Go(fmt.Sprintf("caller.c%d", c.ID), func() { sim.RunCall(net.CCs[0], r) })
 	}
 	e.NoAutoAdvance = true
-	reason := e.Drive(func() bool { return e.evN >= p.Pos })
+	reason := e.Drive(func() bool { return e.EvCount() >= p.Pos })
 	e.NoAutoAdvance = false
 	if reason == Crashed || reason == StepLimit {
 		return
@@ -895,6 +896,28 @@ func execC14(e *Env, pp any) {
 			if !r.Returned {
 				e.Violate(prop, "hang", kindNames[r.Spec.Kind], "call %d of the history never returned\n%s", r.Spec.ID, e.WaitGraph())
 				return
+			}
+		}
+		// whatever a call of the history received is its own (C05: however calls
+		// end and however their envelopes interleave, nothing crosses over)
+		for _, r := range recs {
+			c := r.Spec
+			if c.Kind == KUnary {
+				if r.InvokeErr == nil && r.HInvoked == 1 && c.HStatus == nil && !bytes.Equal(r.InvokeResp, c.Resp) {
+					cc, d, _, ok := payloadTag(r.InvokeResp)
+					e.Violate("C05", "cross-delivery", "unary", "call %d of a history returned a reply that is not its own (%d bytes, tag call=%d dir=%c ok=%v)", c.ID, len(r.InvokeResp), cc, d, ok)
+				}
+				if r.InvokeErr == nil && c.HStatus != nil && r.HInvoked == 1 {
+					e.Violate("C05", "cross-delivery", "unary", "call %d of a history whose handler failed returned success", c.ID)
+				}
+				continue
+			}
+			for i, m := range r.CGot {
+				if !bytes.Equal(m, sim.hmsg(c, i)) {
+					cc, d, sq, _ := payloadTag(m)
+					e.Violate("C05", "cross-delivery", kindNames[c.Kind], "stream %d of a history received message %d = (call=%d dir=%c seq=%d)", c.ID, i, cc, d, sq)
+					break
+				}
 			}
 		}
 		done += batch
